@@ -323,6 +323,7 @@ def run(ck):
     from . import c02
     c02.guard_calls(ck, P, only={"fast-entry@back"})
     c02.loop_backedge_guard(ck, P, only={c02.FAST_BACK})
+    c02.fast_refill(ck, P, "GUARD/fast-bit-budget", fns=(c02.FAST_BACK,))
     who(ck, P)
     init_const(ck, P)
     exits(ck, P)
